@@ -227,13 +227,23 @@ func (am *AccountingManager) Stop() error {
 	am.logger.Info("Stopping accounting manager")
 
 	// Drain sessions if configured
+	var drained []string
 	if am.config.DrainOnShutdown {
-		am.drainAllSessions()
+		drained = am.drainAllSessions()
 	}
 
 	// Persist pending records before shutdown
 	if err := am.persistPendingRecords(); err != nil {
 		am.logger.Warn("Failed to persist pending records", zap.Error(err))
+	} else {
+		// Their Stop is acknowledged or durably queued: drained sessions must not be
+		// recovered as orphans (and stopped a second time) on the next start
+		for _, sessionID := range drained {
+			am.sessionsMu.Lock()
+			delete(am.sessions, sessionID)
+			am.sessionsMu.Unlock()
+			am.removePersistedSession(sessionID)
+		}
 	}
 
 	// Cancel context and wait for workers
@@ -660,8 +670,9 @@ func (am *AccountingManager) retryPendingRecords() {
 	}
 }
 
-// drainAllSessions sends Accounting-Stop for all active sessions
-func (am *AccountingManager) drainAllSessions() {
+// drainAllSessions sends Accounting-Stop for all active sessions and returns the IDs of
+// the sessions whose Stop was sent or queued before the shutdown timeout
+func (am *AccountingManager) drainAllSessions() []string {
 	am.logger.Info("Draining all sessions for shutdown")
 
 	am.sessionsMu.RLock()
@@ -676,11 +687,16 @@ func (am *AccountingManager) drainAllSessions() {
 	defer cancel()
 
 	var wg sync.WaitGroup
+	var drainedMu sync.Mutex
+	var drained []string
 	for _, session := range sessions {
 		wg.Add(1)
 		go func(s *AccountingSession) {
 			defer wg.Done()
 			am.sendAccountingStopSync(ctx, s, TerminateCauseNASReboot)
+			drainedMu.Lock()
+			drained = append(drained, s.SessionID)
+			drainedMu.Unlock()
 		}(session)
 	}
 
@@ -699,6 +715,10 @@ func (am *AccountingManager) drainAllSessions() {
 			zap.Int("total", len(sessions)),
 		)
 	}
+
+	drainedMu.Lock()
+	defer drainedMu.Unlock()
+	return append([]string(nil), drained...)
 }
 
 // sendAccountingStopSync sends an Accounting-Stop synchronously with the given context
